@@ -19,6 +19,7 @@ LEVEL = 'model_checking'
 BATCH = 80
 
 PRELUDE = '''from enum import Enum
+from collections.abc import Iterator
 from typing import Generic, TypeAlias, TypeVar
 
 T = TypeVar('T')
@@ -74,8 +75,32 @@ class G(Generic[T]):
 class IG(G[int]):
 	pass
 
+class Cd:
+	n: int
+
+	def __init__(self, n: int) -> None:
+		self.n = n
+
+	def __iter__(self) -> 'Cd':
+		return Cd(self.n)
+
+	def __next__(self) -> int:
+		if self.n <= 0:
+			raise StopIteration()
+		self.n = self.n - 1
+		return self.n + 1
+
+class Ws:
+	ws: list[str]
+
+	def __init__(self) -> None:
+		self.ws = ['a']
+
+	def __iter__(self) -> Iterator[str]:
+		return iter(self.ws)
+
 '''
-SIGNATURE = 'n: int, x: float, b: bool, s: str, xs: list[int], ys: list[str], d: dict[str, int], t: tuple[int, str], c: C, e: E, xss: list[list[int]], dl: dict[str, list[float]], cs: list[C], xa: Ints, rows: Rows, da: DS, xo: list[int] | None, co: C | None, lo: list[C] | None, xn: None | list[int], cn: None | C, ln: None | list[C], gi: G[int], gs: G[str], ig: IG'
+SIGNATURE = 'n: int, x: float, b: bool, s: str, xs: list[int], ys: list[str], d: dict[str, int], t: tuple[int, str], c: C, e: E, xss: list[list[int]], dl: dict[str, list[float]], cs: list[C], xa: Ints, rows: Rows, da: DS, xo: list[int] | None, co: C | None, lo: list[C] | None, xn: None | list[int], cn: None | C, ln: None | list[C], gi: G[int], gs: G[str], ig: IG, cd: Cd, wz: Ws'
 
 
 def describe(v) -> str:
@@ -106,8 +131,8 @@ def describe(v) -> str:
 def runtime_types(texts: list[str]) -> list[str]:
 	scope: dict = {}
 	exec(PRELUDE, scope)
-	C, E, G, IG = scope['C'], scope['E'], scope['G'], scope['IG']
-	env = {'n': 3, 'x': 1.5, 'b': True, 's': 'a,b', 'xs': [1, 2], 'ys': ['a', 'b'], 'd': {'a': 1}, 't': (1, 'z'), 'c': C(2), 'e': E.A, 'xss': [[1], [2]], 'dl': {'a': [1.5]}, 'cs': [C(1)], 'xa': [1, 2], 'rows': [[1], [2]], 'da': {'a': 1}, 'xo': [3], 'co': C(1), 'lo': [C(1)], 'xn': [4], 'cn': C(2), 'ln': [C(2)], 'gi': G(1), 'gs': G('s'), 'ig': IG(2)}
+	C, E, G, IG, Cd, Ws = scope['C'], scope['E'], scope['G'], scope['IG'], scope['Cd'], scope['Ws']
+	env = {'n': 3, 'x': 1.5, 'b': True, 's': 'a,b', 'xs': [1, 2], 'ys': ['a', 'b'], 'd': {'a': 1}, 't': (1, 'z'), 'c': C(2), 'e': E.A, 'xss': [[1], [2]], 'dl': {'a': [1.5]}, 'cs': [C(1)], 'xa': [1, 2], 'rows': [[1], [2]], 'da': {'a': 1}, 'xo': [3], 'co': C(1), 'lo': [C(1)], 'xn': [4], 'cn': C(2), 'ln': [C(2)], 'gi': G(1), 'gs': G('s'), 'ig': IG(2), 'cd': Cd(2), 'wz': Ws()}
 	out = []
 	for text in texts:
 		try:
